@@ -273,7 +273,7 @@ pub fn c11_case_scn() -> ChatScn {
 pub fn c20_oper_parts(quick: bool) -> Vec<Part> {
     vec![
         Part::Bfs(Box::new(c11_scn("mask-match-def-wallops", Some("*!~au@127.0.0.1"), (false, false, false, false, true), false)), lim(if quick { 4 } else { 5 }, 2_000_000, if quick { 8.0 } else { 300.0 })),
-        Part::Bfs(Box::new(c11_scn("mask-mismatch-def-localoper", Some("*!*@10.*"), (false, false, true, false, false), false)), lim(if quick { 4 } else { 5 }, 2_000_000, if quick { 8.0 } else { 300.0 })),
+        Part::Bfs(Box::new(c11_scn("mask-match-def-localoper", Some("*!~au@127.0.0.1"), (false, false, true, false, false), false)), lim(if quick { 4 } else { 5 }, 2_000_000, if quick { 8.0 } else { 300.0 })),
     ]
 }
 
@@ -341,6 +341,18 @@ fn c19_scn(name: &str, full: bool) -> ChatScn {
     s.probes_for.push((2, "USERHOST alice alicia bob bobby"));
     s.probes_for.push((0, "USERHOST carol caro dan nosuch"));
     s.probe_focus = Some(Focus { cats: vec![], relays: false, relay_verbs: None, actor: true, actor_codes: Some(vec!["251", "252", "254", "255", "265", "266", "303", "302"]), closes: false });
+    s
+}
+
+/// Statistics when every user starts as a local operator.
+fn c19_localoper_scn(full: bool) -> ChatScn {
+    let mut s = c19_scn("c19-stats-default-localoper", full);
+    s.cfg.def_modes = (false, false, true, false, false);
+    s.cfg.label = "oper+default-local_oper".into();
+    s.alphabet_for.retain(|(slot, t)| *slot < 2 && ["OPER op oppw", "MODE {me} -o", "MODE {me} -oO", "MODE {me} -O", "MODE {me} +i", "NICK {alt}", "QUIT"].contains(t));
+    for slot in 0..2 {
+        s.alphabet_for.push((slot, "MODE {me} -O"));
+    }
     s
 }
 
@@ -529,6 +541,8 @@ pub fn plan(property: &str, quick: bool) -> Plan {
             parts: {
                 let mut p = vec![Part::Bfs(Box::new(c19_scn("c19-stats", !quick)), lim(if quick { 5 } else { 6 }, 3_000_000, t(30.0, 900.0)))];
                 p.push(Part::Bfs(Box::new(c19_ghost(!quick)), lim(if quick { 6 } else { 8 }, 2_000_000, t(20.0, 600.0))));
+                // every user starts as a local operator (default_user_modes.local_oper): OPER, -o, -O, endings
+                p.push(Part::Bfs(Box::new(c19_localoper_scn(!quick)), lim(if quick { 4 } else { 5 }, 2_000_000, t(20.0, 600.0))));
                 for max in [1usize, 2, 3] {
                     p.push(Part::Bfs(Box::new(Slots { max, with_password: false }), lim(if quick { 7 } else { 10 }, 2_000_000, t(5.0, 300.0))));
                 }
